@@ -130,6 +130,12 @@ func defsRun(s *Summary, l defsLine) {
 			for i := range mw {
 				mw[i] = nopHandler
 			}
+			if l.Method != nil && l.Nmw >= 2 && oi%2 == 1 && handler != nil {
+				// the same number of handlers, split between a group and a route object that carries its share when it is attached
+				half := l.Nmw / 2
+				r.Group("/", func() { rux.NewRoute(path, handler, method).Use(mw[half:]...).AttachTo(r) }, mw[:half]...)
+				return
+			}
 			r.Add(path, handler, method).Use(mw...)
 		}()
 		compared++
